@@ -50,6 +50,7 @@ type vfShapes struct {
 	certs      map[string]*x509.Certificate
 	realPw     interface{}
 	signer     crypto.Signer
+	base       int64
 }
 
 func vfNewShapes(t *testing.T, state *RuntimeState) *vfShapes {
@@ -227,7 +228,12 @@ func (s *vfShapes) decorate(f []string, req *http.Request) (*http.Request, bool)
 			return nil, false
 		}
 		issuer := s.state.idpGetIssuer()
-		now := time.Now().Unix()
+		// one base time per fixture: two cookies built from the same tokens carry byte-identical claims, whoever
+		// signs them (a verifier that remembers claims instead of signatures must not be fooled by that)
+		if s.base == 0 {
+			s.base = time.Now().Unix()
+		}
+		now := s.base
 		c := authInfoJWT{Issuer: issuer, Subject: p[7], Audience: []string{issuer}, IssuedAt: now - 100}
 		switch p[0] {
 		case "auth":
@@ -260,12 +266,12 @@ func (s *vfShapes) decorate(f []string, req *http.Request) (*http.Request, bool)
 		if p[4] == "past" {
 			c.NotBefore = now - 100
 		} else {
-			c.NotBefore = now + 100
+			c.NotBefore = now + 36000
 		}
 		if p[5] == "past" {
 			c.Expiration = now - 50
 		} else {
-			c.Expiration = now + 1000
+			c.Expiration = now + 36000
 		}
 		lvl, err := strconv.Atoi(p[6])
 		if err != nil {
